@@ -1,6 +1,7 @@
 package main
 
 import (
+	"runtime"
 	"sort"
 
 	"verifharness/hx"
@@ -21,11 +22,11 @@ func defaultLayouts(nb int) []Layout {
 		alt[i] = i%2 == 0
 	}
 	return []Layout{
-		{SGDur: 0, NShards: 1, Index: "inmem", Snap: all(false), Final: 0}, // one shard, cache only
-		{SGDur: 0, NShards: 1, Index: "tsi1", Snap: all(true), Final: 2},   // one shard, one compacted file
-		{SGDur: 10, NShards: 1, Index: "inmem", Snap: alt, Final: 1},       // many shard groups, files
-		{SGDur: 0, NShards: 3, Index: "tsi1", Snap: alt, Final: 0},         // series spread over 3 shards, files + cache
-		{SGDur: 25, NShards: 2, Index: "inmem", Snap: all(true), Final: 0}, // groups x shards, several files each
+		{SGDur: 0, NShards: 1, Index: "inmem", Snap: all(false), Final: 0},                         // one shard, cache only
+		{SGDur: 0, NShards: 1, Index: "tsi1", Snap: all(true), Final: 2},                           // one shard, one compacted file
+		{SGDur: 10, NShards: 1, Index: "inmem", Snap: alt, Final: 1},                               // many shard groups, files
+		{SGDur: 0, NShards: 3, Index: "tsi1", Snap: alt, Final: 0},                                 // series spread over 3 shards, files + cache
+		{SGDur: 25, NShards: 2, Index: "inmem", Snap: all(true), Final: 0},                         // groups x shards, several files each
 		{SGDur: 0, NShards: 1, Index: "inmem", Snap: all(false), Final: 0, Inflight: (nb + 1) / 2}, // a snapshot in flight under the later batches
 	}
 }
@@ -116,9 +117,9 @@ func genData(r *hx.Rand) Data {
 	ns := 1 + r.Intn(5)
 	seen := map[[2]int]bool{}
 	for len(d.Series) < ns {
-		s := [2]int{r.Intn(len(hostPool)), r.Intn(len(regionPool))}
+		s := [2]int{r.Intn(genHosts), r.Intn(len(regionPool))}
 		if r.Chance(60) && s[0] == 0 {
-			s[0] = 1 + r.Intn(len(hostPool)-1)
+			s[0] = 1 + r.Intn(genHosts-1)
 		}
 		if !seen[s] {
 			seen[s] = true
@@ -330,7 +331,7 @@ func genStmt(r *hx.Rand, d Data) Stmt {
 		s.PredTag = r.Intn(2)
 		s.PredNeg = r.Chance(35)
 		if s.PredTag == 0 {
-			s.PredVal = 1 + r.Intn(len(hostPool)-1)
+			s.PredVal = 1 + r.Intn(genHosts-1)
 		} else {
 			s.PredVal = 1 + r.Intn(len(regionPool)-1)
 		}
@@ -487,7 +488,38 @@ func designedDups(ft int) Data {
 	return d
 }
 
+// designedMany: n series in ONE tag set (same region, n different hosts), all in the same
+// shard group: per-series iterators of a pushed-down call are merged in parallel groups whose
+// number depends on GOMAXPROCS, so n is chosen above the CPU count and not a multiple of it
+func designedMany(ft int, n int) Data {
+	d := Data{FT: ft}
+	var b []Pt
+	for i := 0; i < n; i++ {
+		d.Series = append(d.Series, [2]int{1 + i, 1})
+		b = append(b, Pt{S: i, T: int64(i % 7), V: int64(i + 1)}, Pt{S: i, T: int64(20 + i%5), V: int64(100 - i)})
+	}
+	d.Batches = [][]Pt{b}
+	return d
+}
+
 func designed(o *hx.Out, e *env, thorough bool) {
+	for _, ft := range []int{ftFloat, ftInt} {
+		for _, n := range []int{runtime.GOMAXPROCS(0) + 1, 2*runtime.GOMAXPROCS(0) + 3} {
+			if n > len(hostPool)-1 {
+				n = len(hostPool) - 1
+			}
+			dm := designedMany(ft, n)
+			var ms []Stmt
+			for _, fn := range []int{fnCount, fnSum, fnMax, fnFirst, fnLast, fnMean} {
+				ms = append(ms, Stmt{Fn: fn, TMin: -5, TMax: 40, PredTag: -1})
+				ms = append(ms, Stmt{Fn: fn, TMin: -5, TMax: 40, PredTag: -1, ByRegion: true, Interval: 10, Desc: fn == fnMax})
+			}
+			runDataSet(o, e, dm, ms, defaultLayouts(1), "designed")
+			if !thorough {
+				break
+			}
+		}
+	}
 	type iv struct{ d, off int64 }
 	ivs := []iv{{0, 0}, {10, 0}, {10, 3}, {20, -7}}
 	for _, ft := range []int{ftFloat, ftInt, ftStr, ftBool} {
